@@ -20,16 +20,16 @@ CHECKS = {
          "get/rank/select/occs/occs_smaller on generated quaternary sequences (explicit, weighted, runs, periodic, rare symbol, symbol absent from leading superblocks; lengths around 128..4096 multiples and the 8192-occurrence sampling period) compared with the model; every symbol 4..=255 must be rejected.",
          "the model; generated lengths <= 1 000 000 quick / 8 000 000 thorough, plus enumerated periodic inputs of 2^27 + 70 001 and 2^28 + 70 001 symbols checked against closed-form answers", "3/C05"),
  "C06": ("proptest differential testing of RSNarrow and RSWide against a bit model",
-         "get/rank1/rank0/select1/select0/totals on generated bit vectors (all densities, runs, all-ones blocks, counts of ones/zeros crossing multiples of 1024 and 8192 by -1/0/+1) compared with the model in two build profiles.",
+         "get/rank1/rank0/select1/select0/totals on generated bit vectors (all densities, runs, all-ones blocks, counts of ones/zeros crossing multiples of 1024 and 8192 by -1/0/+1) compared with the model in five builds (optimised, debug assertions + overflow checks, crate feature prefetch off, AddressSanitizer, target-cpu=native); enumerated 5 Mbit very sparse / very dense vectors; bit vectors built from bools, pushes, typed position lists (also with duplicates), with_zeros + set, and from iterators with inexact size hints.",
          "the model; generated lengths <= 1 200 000 quick / 16 000 000 thorough; thorough adds a 2^32 + 20 603-bit sparse vector with closed-form answers", "3/C06"),
  "C07": ("proptest differential testing of DArray with a group grammar (dense / sparse / threshold 1024-one groups, complemented for select0)",
          "select1 (and select0) for every k on vectors assembled from 1024-one groups that are dense, sparse, exactly at the 65536-bit threshold or cluster+gap, in every order, plus len/count/get/iterators; built from bools and from typed position lists.",
          "the model; <= 4 groups quick / 8 thorough (vectors up to a few million bits); thorough adds a position list reaching beyond bit 2^32", "3/C07"),
  "C08": ("proptest stateful testing: operation histories over BitVectorMut interpreted against Vec<bool>",
-         "Model-based testing over generated histories (push, append_bits, extend_with_zeros, set, set_bits, extend with bools/positions, conversions, clone, rebuild) with observations after every step and exhaustive get_bits/position-iterator comparisons on small vectors.",
+         "Model-based testing over generated histories (push, append_bits, extend_with_zeros, set, set_bits, extend with bools/positions from exact, inexact-size-hint and non-fused iterators, single extends of more than 2^18 bits, conversions to and from the immutable BitVector, clone, clone_from into shorter and longer destinations of both types, rebuild) with observations after every step and exhaustive get_bits/position-iterator comparisons on small vectors.",
          "Vec<bool> model; arguments constructed inside the documented preconditions; KF-1 signature excluded (counted); thorough adds a vector with 2^32 + 1000 ones", "3/C08"),
  "C13": ("proptest stateful testing of QVectorBuilder / QVector over all 12 integer carrier types",
-         "Generated push/extend/from_iter histories with values over the whole range of each integer type; len/is_empty/get/iterators compared with the low two bits of every value.",
+         "Generated push/extend/from_iter histories (exact, inexact-size-hint and non-fused iterators; single collects / extends of more than 2^18 symbols) with values over the whole range of each integer type; len/is_empty/get/iterators compared with the low two bits of every value.",
          "Vec<u8> model", "3/C13"),
  "C04": ("proptest API-totality testing: generated call lists with boundary-biased raw arguments on values obtained by every route, plus an enumerated method x boundary-argument sweep on empty/default/one-element values; crash isolation by the driver",
          "Every safe method of every public type is called with arguments from the whole domain (0, boundaries +-1, n+-2, count+-2, usize::MAX-k, symbols 0..=255 and far above max) on values obtained by construction, Default, Clone, bincode round trip and conversions, in an optimised build, in a build with debug assertions and overflow checks, and in an AddressSanitizer build. The model decides before each call whether a documented panic is permitted; any other panic, any Some for an invalid argument, and any process death (SIGSEGV, abort) is a violation. The enumerated part covers the finite sub-space method x 40 boundary arguments x 11 symbols on 738 empty/default/one-element values completely.",
@@ -50,19 +50,19 @@ CHECKS = {
          "One-sided bound check on generated sizes n = 2^k + {-1,0,1,2,2^(k-1)} (just above a power of two maximises retained Vec slack) for all construction paths; evidence reports how much of the bound is used (most non-trivial cases use 90-100 %).",
          "live bytes requested from the allocator; bound constants stated in the evidence assumptions", "3/C14"),
  "C15": ("proptest + counting allocator: Huffman trees against the entropy bound computed from the input and against the plain tree built in the same process",
-         "H0 is computed from the generated input; the Huffman tree's retained heap must stay below n*(H0+2)/8 (quad) or n*(H0+1)/8 (binary) times the C14 overhead factor plus per-level and table allowances, and below the plain tree's heap plus the same allowances.",
+         "H0 is computed from the generated input; the Huffman tree's retained heap must stay below n*(H0+2)/8 (quad) or n*(H0+1)/8 (binary) times the C14 overhead factor plus per-level and table allowances, and below the plain tree's heap plus the same allowances; enumerated inputs cover the deepest codes, non-stationary 4 M-symbol inputs, one symbol with 2^20 + 100 / 2^21 + 100 occurrences, and dense 4^k alphabets with one heavy and otherwise exactly tied symbols.",
          "level data is bounded through retained heap minus allowances (looser than the statement by the table allowance)", "3/C15"),
  "C16": ("proptest + counting allocator: space_usage_byte() against live heap + size_of_val, with differential isolation of small components",
-         "For every SpaceUsage type the reported size must match the measured size within 2 % + constants; small components (prefetch support, rank/select support, select0 inventories) are isolated by subtracting the sizes of a second structure over identical content; KiB/MiB/GiB are checked as exact scalings.",
+         "For every SpaceUsage type the reported size must match the measured size within 2 % + constants; small components (prefetch support, rank/select support, select0 inventories) are isolated by subtracting the sizes of a second structure over identical content; KiB/MiB/GiB are checked as exact scalings; the blanket impls are measured on Box<[T]> of values of unequal size and on Vec<u64> with spare capacity, and a DArray<true> is read back from its bytes as DArray<false>.",
          "live bytes requested from the allocator; tolerances stated in the evidence assumptions", "3/C16"),
  "C17": ("exhaustive enumeration of the select-in-byte table cover + proptest over words, slices, shifts and byte strings against bit loops / stable sorts",
-         "select_in_word is checked on every byte value at every byte position with every in-byte rank in three contexts (complete cover of the 2048-entry table, every k for each word), then on generated words; select_in_word_u128, popcnt_wide<N>, msb (12 primitive types), stable_partition_of_4/2 (6 element types, every shift below the width) and text_remap are compared with obviously-correct references.",
+         "select_in_word is checked on every byte value at every byte position with every in-byte rank in three contexts (complete cover of the 2048-entry table, every k for each word), then on generated words; select_in_word_u128, popcnt_wide<N>, msb (12 primitive types), stable_partition_of_4/2 (6 element types, every shift below the width, slices up to 2^20 + 3 elements quick / 2^22 thorough) and text_remap are compared with obviously-correct references, also in a build with -C target-cpu=native.",
          "reference implementations in harness/src/props/c17.rs (bit loops, std stable sort, BTreeSet)", "3/C17"),
  "C18": ("compile-time Send+Sync probe crate + proptest purity checks + std::thread::scope stress with per-thread answer digests",
-         "A separate crate asserting Send + Sync for every public query structure must compile. Sequentially, the bincode form must be byte-identical before and after query batches and a repeated batch must give the same digest. Concurrently, 2..16 threads released by a barrier query one shared value; every thread's digests (each answer also compared with the model) must equal the single-threaded digests. Interleavings are sampled by the OS scheduler, not enumerated: a race is detected only probabilistically.",
+         "A separate crate asserting Send + Sync for every public query structure, every iterator / view type they hand out and QVectorBuilder must compile. Sequentially, the bincode form must be byte-identical before and after query batches and a repeated batch must give the same digest. Concurrently, 2..16 threads released by a barrier query one shared value; every thread's digests (each answer also compared with the model) must equal the single-threaded digests. Interleavings are sampled by the OS scheduler, not enumerated: a race is detected only probabilistically.",
          "OS scheduler chooses interleavings; the structures contain no synchronisation a schedule-controlling runner could drive", "3/C18"),
  "C19": ("proptest metamorphic testing: construction paths, clones, neighbour sequences, element widths",
-         "All construction paths of a type are built from the same content and must give identical digests and (non-Huffman) compare equal; clones equal; the structure of a neighbour sequence (one element changed / appended / removed / two distinct adjacent swapped) must compare unequal for every path; trees are rebuilt in every wider element type against the same model.",
+         "All construction paths of a type (including iterators with inexact size hints, multi-step extends, with_zeros + set, over-sized builders) are built from the same content and must give identical digests and (non-Huffman) compare equal; clones equal, clone_from into an edited, a much longer, a slightly longer and an empty destination equal and free of the destination's former content; the structure of a neighbour sequence (one element changed / appended / removed / two distinct adjacent swapped) must compare unequal for every path; trees are rebuilt in every wider element type against the same model.",
          "the models; bit vectors from positions are compared on the prefix ending at the last one", "3/C19"),
 }
 
